@@ -592,4 +592,102 @@ def oneOutcomePRNG : PRNG Unit where
 example : (genEmpiSeqOn oneOutcomePRNG ⟨(), []⟩ .glob [0, 1, 0] [5, 7]).map (·.1) = some [(5, [0, 1, 0]), (7, [0, 1, 0])] := by
   decide +kernel
 
+
+/-! ## error branches of `generate_data_from_prob_dist` (executed by driver op `gde`) -/
+
+/-- **C14.m `validateProb_ok_iff`** — `validate_prob_dist(prob_dist, eps)` passes exactly when every entry is non-negative up
+to `eps` (`p ≥ 0` or `|p| ≤ eps`) and the sum is within `eps` of one. -/
+theorem validateProb_ok_iff (probs : List Rat) (eps : Rat) :
+    validateProb probs eps = .ok () ↔
+      (∀ p ∈ probs, 0 ≤ p ∨ rabs p ≤ eps) ∧ rabs (probs.foldr (· + ·) 0 - 1) ≤ eps := by
+  unfold validateProb
+  cases h : firstNegative eps probs 0 with
+  | some i =>
+    simp only [reduceCtorEq, false_iff, not_and]
+    intro hall
+    rw [(firstNegative_none_iff eps probs 0).2 hall] at h; cases h
+  | none =>
+    have hall := (firstNegative_none_iff eps probs 0).1 h
+    by_cases hs : rabs (probs.foldr (· + ·) 0 - 1) ≤ eps
+    · simp only [hs, if_true, true_iff, and_true]; exact hall
+    · simp [hs]
+
+/-- **C14.m' `validateProb_error_sound`** — the reported entry really is below `−eps`, and it is the first such entry -/
+theorem validateProb_error_sound (probs : List Rat) (eps : Rat) (i : Nat)
+    (h : validateProb probs eps = .error (.negativeEntry i)) :
+    ∃ hi : i < probs.length, probs[i] < 0 ∧ ¬ rabs probs[i] ≤ eps := by
+  unfold validateProb at h
+  cases hf : firstNegative eps probs 0 with
+  | none => rw [hf] at h; simp only at h; split at h <;> cases h
+  | some j =>
+    rw [hf] at h; injection h with h; injection h with h; subst h
+    obtain ⟨k, hk, hlt, hp⟩ := firstNegative_some eps probs 0 j hf
+    simp only [Nat.zero_add] at hk; subst hk
+    exact ⟨hlt, hp⟩
+
+/-- **C14.n `genDataE_ok_iff`** — `generate_data_from_prob_dist` returns data exactly when the vector passes validation, the
+argument is `None`, a generator the caller holds, or a non-negative Python int, and then the data and the store afterwards are
+those of `genData` (so all seed-purity / stream theorems apply). -/
+theorem genDataE_ok_iff {G : Type} (P : PRNG G) (st : Store G) (a : SeedArg) (probs : List Rat) (n : Nat) (eps : Rat)
+    (d : List Int) (st' : Store G) :
+    genDataE P st a probs n eps = (.ok d, st') ↔
+      validateProb probs eps = .ok () ∧ a ≠ .other ∧ (∀ s, a = .int s → 0 ≤ s) ∧ genData P st a probs n = some (d, st') := by
+  unfold genDataE
+  cases hv : validateProb probs eps with
+  | error e => simp
+  | ok u =>
+    cases a with
+    | other => simp
+    | int s =>
+      by_cases hs : s < 0
+      · simp [hs]
+      · simp only [hs, if_false]
+        cases hg : genData P st (.int s) probs n with
+        | none => simp
+        | some r => obtain ⟨d2, st2⟩ := r; simp; intro _ _; omega
+    | none =>
+      cases hg : genData P st .none probs n with
+      | none => simp
+      | some r => obtain ⟨d2, st2⟩ := r; simp
+    | gen k =>
+      cases hg : genData P st (.gen k) probs n with
+      | none => simp
+      | some r => obtain ⟨d2, st2⟩ := r; simp
+
+/-- **C14.n' `genDataE_error_draws_nothing`** — on every error (invalid vector, negative seed, a seed that is neither `None`,
+an int nor a generator: np.int64, bool, float …) nothing has been drawn: the store after the call is the store before. -/
+theorem genDataE_error_draws_nothing {G : Type} (P : PRNG G) (st : Store G) (a : SeedArg) (probs : List Rat) (n : Nat)
+    (eps : Rat) (e : GenErr) (st' : Store G) (h : genDataE P st a probs n eps = (.error e, st')) : st' = st := by
+  unfold genDataE at h
+  cases hv : validateProb probs eps with
+  | error e' => rw [hv] at h; simp only [Prod.mk.injEq] at h; exact h.2.symm
+  | ok u =>
+    rw [hv] at h
+    cases a with
+    | other => simp only [Prod.mk.injEq] at h; exact h.2.symm
+    | int s =>
+      simp only at h
+      split at h
+      · simp only [Prod.mk.injEq] at h; exact h.2.symm
+      · split at h
+        · simp only [Prod.mk.injEq, reduceCtorEq, false_and] at h
+        · simp only [Prod.mk.injEq] at h; exact h.2.symm
+    | none =>
+      simp only at h
+      split at h
+      · simp only [Prod.mk.injEq, reduceCtorEq, false_and] at h
+      · simp only [Prod.mk.injEq] at h; exact h.2.symm
+    | gen k =>
+      simp only at h
+      split at h
+      · simp only [Prod.mk.injEq, reduceCtorEq, false_and] at h
+      · simp only [Prod.mk.injEq] at h; exact h.2.symm
+
+/-- the order of the checks, on concrete inputs: validation first, then the seed -/
+example : (genDataE ctrPRNG ⟨0, [1]⟩ (.int (-1)) [1/2, 1/5] 2 (1/100)).1 = .error .sumNotOne := by decide +kernel
+example : (genDataE ctrPRNG ⟨0, [1]⟩ (.int (-1)) [1/2, 1/2] 2 (1/100)).1 = .error .negativeSeed := by decide +kernel
+example : (genDataE ctrPRNG ⟨0, [1]⟩ .other [1/2, 1/2] 2 (1/100)).1 = .error .notAStream := by decide +kernel
+example : (genDataE ctrPRNG ⟨0, [1]⟩ (.gen 0) [1/2, -1/10, 3/5] 2 (1/100)).1 = .error (.negativeEntry 1) := by decide +kernel
+example : (genDataE ctrPRNG ⟨0, [1]⟩ (.gen 0) [1/2, -1/1000, 501/1000] 2 (1/100)).1 = .ok [0, 2] := by decide +kernel
+
 end QM.C14
